@@ -431,6 +431,11 @@ func receiveStates(pa, pb map[string][]byte, ka, kb sorted.KeyValue, every bool)
 	st[grew] = append([]byte(nil), pb[grew]...)
 	out = append(out, crashState{"recv/complete-noindex-noroll", st, gate.CloneKV(ka)})
 	out = append(out, crashState{"recv/complete-indexed", clonePacks(pb), gate.CloneKV(kb)})
+	// index row written, but the process died before a due roll-over created the next pack file:
+	// the store reopens with its last pack already over maxFileSize
+	st2 := clonePacks(pa)
+	st2[grew] = append([]byte(nil), pb[grew]...)
+	out = append(out, crashState{"recv/complete-indexed-noroll", st2, gate.CloneKV(kb)})
 	return out
 }
 
@@ -601,6 +606,18 @@ func dpExplore(u *univ.Universe, st crashState, dir string, rest []drv.Op, maxFi
 	compactObserve(w.r, emit, true)
 	for _, op := range rest {
 		emit(w.r.Do(op))
+	}
+	compactObserve(w.r, emit, true)
+	// and every blob is uploaded (again): whatever the reopened writer state is, new records must be readable
+	for _, bl := range u.Blobs {
+		emit(w.r.Do(drv.Op{Op: "receive", B: bl.Rank}))
+	}
+	compactObserve(w.r, emit, true)
+	// fresh appends after the restart: remove and upload one blob after the other
+	for _, bl := range u.Blobs {
+		emit(w.r.Do(drv.Op{Op: "remove", Bs: []int{bl.Rank}}))
+		emit(w.r.Do(drv.Op{Op: "receive", B: bl.Rank}))
+		emit(w.r.Do(drv.Op{Op: "fetch", B: bl.Rank}))
 	}
 	compactObserve(w.r, emit, true)
 	w.close()
